@@ -16,10 +16,11 @@ ID = "C10"
 LEVEL = "exploration"
 RULE = ("part 1: FileSpec with non-ASCII letters (drawn from the target codec's repertoire) in mnemonics, units, values, "
         "descriptions and ~Other text; the same text is supplied as path string, pathlib.Path, open text file, StringIO "
-        "and multi-line string; on disk it is stored as utf-8-sig (autodetected), utf-8, utf-16 (BOM), utf-16-le, "
+        "and multi-line string (~A last, or followed by the other header sections); on disk it is stored as utf-8-sig (autodetected), utf-8, utf-16 (BOM), utf-16-le, "
         "utf-16-be, latin-1, cp1252 (explicit encoding=) with LF, CRLF or CR line ends. Oracle: every channel yields "
         "the canonical content of read(StringIO(text)) and the expected reading of the spec (so every non-ASCII "
-        "character is accounted for). part 2 (histories): operation lists over 2-3 texts: read(text, channel), mutate "
+        "character is accounted for). part 2 (histories): operation lists over 2-3 texts: read(text, channel; path "
+        "channels use a fresh path or ONE path written again with the next content in utf-8/utf-8-sig/utf-16/utf-16-le), mutate "
         "an earlier result (header value, curve sample, append/delete curve, set_data), write an earlier result, "
         "LASFile(); after every step each re-read of a text equals its first reading, every untouched result equals "
         "its snapshot and a fresh LASFile() equals the pristine default. Non-trivial: non-ASCII present and >= 2 "
